@@ -361,29 +361,31 @@ class CustomState(BaseState):
         if self.expansion_level == ExpansionLevel.Vector:
             assert isinstance(self.state, jnp.ndarray)
             assert self.state.shape == (self.dimensions, 1)
-            self.state = jnp.einsum("ij,jk->ik", operation.operator, self.state)
-            if not jnp.any(jnp.abs(self.state) > 0):
+            new_state = jnp.einsum("ij,jk->ik", operation.operator, self.state)
+            if not jnp.any(jnp.abs(new_state) > 0):
                 raise ValueError(
                     "The state is entirely composed of zeros,"
                     " is |0⟩ attempted to be anniilated?"
                 )
+            self.state = new_state
             # cummulative = 0
             if operation.renormalize:
                 self.state = self.state / jnp.linalg.norm(self.state)
         if self.expansion_level == ExpansionLevel.Matrix:
             assert isinstance(self.state, jnp.ndarray)
             assert self.state.shape == (self.dimensions, self.dimensions)
-            self.state = jnp.einsum(
+            new_state = jnp.einsum(
                 "ca,ab,db->cd",
                 operation.operator,
                 self.state,
                 jnp.conj(operation.operator),
             )
-            if not jnp.any(jnp.abs(self.state) > 0):
+            if not jnp.any(jnp.abs(new_state) > 0):
                 raise ValueError(
                     "The state is entirely composed of zeros, "
                     "is |0⟩ attempted to be anniilated?"
                 )
+            self.state = new_state
             if operation.renormalize:
                 self.state = self.state / jnp.trace(self.state)
 
